@@ -64,7 +64,7 @@ structure Conf where
   observe : Bool := false
   /-- `fixes/C07-fpa-record-notes.diff` applied (`false`: the tree before it, kept for the counterexamples) -/
   replay : Bool := true
-  /-- `fixes/C07-fpa-script-decline.diff` applied: a script of the double-stack / cairn rule that panics declines instead
+  /-- `fixes/C07-fpa-script-declines.diff` applied: a script of the double-stack / cairn rule that panics declines instead
   (`Impl/FPATotal.lean`; `false`: the tree before it - /repo fefa081 -, kept for the counterexamples) -/
   decline : Bool := true
 
@@ -135,7 +135,7 @@ def recOf (c : Conf) (b : Bot.St) : GameRec :=
   { color := c.bot.color, size := c.size, positions := b.positions, moves := b.moves }
 
 /-- `(*Friendly).GetMove` of the tree with `fixes/C07-fpa-record-notes.diff`: with the declining scripts of
-`fixes/C07-fpa-script-decline.diff` (`decline = true`) or with the scripts that panic (`false`: /repo fefa081) -/
+`fixes/C07-fpa-script-declines.diff` (`decline = true`) or with the scripts that panic (`false`: /repo fefa081) -/
 def friendlyOf (c : Conf) (fpa : Option (Variant × Rule)) (g : GameRec) (p : Pos) (chk : CheckOracle) :
     R (Option (Variant × Rule) × Action) :=
   if c.decline then friendlyGetMoveD fpa g p chk else friendlyGetMove fpa g p chk
